@@ -1649,6 +1649,25 @@ clear configure tunnel-group VPN-tunnel-DRC-0
 =END=
 
 ############################################################
+=TITLE=Add certificate-group-map for certificate map having different index on device
+=DEVICE=
+tunnel-group VPN-tunnel-DRC-0 type remote-access
+crypto ca certificate map ca-map-DRC-0 20
+ subject-name attr ea co @sub.example.com
+tunnel-group-map ca-map-DRC-0 20 VPN-tunnel-DRC-0
+=NETSPOC=
+tunnel-group VPN-tunnel type remote-access
+crypto ca certificate map ca-map 10
+ subject-name attr ea co @sub.example.com
+tunnel-group-map ca-map 10 VPN-tunnel
+webvpn
+ certificate-group-map ca-map 10 VPN-tunnel
+=OUTPUT=
+webvpn
+certificate-group-map ca-map-DRC-0 20 VPN-tunnel-DRC-0
+=END=
+
+############################################################
 =TITLE=Leave webvpn with unhandled subcommands unchanged
 =DEVICE=
 webvpn
